@@ -275,6 +275,7 @@ func C16(c *vlib.Ctx) {
 	c.Assume("the resolver answer is the one the policy check saw (re-resolution by the dialer is outside the statement)")
 	c.Assume("IPv4-mapped IPv6 CIDR rules are not generated (undocumented); IPv4-mapped URL hosts against IPv4 rules are")
 	c16ReloadEdits(c)
+	c16Rebinding(c)
 	n := c.N(24000, 6000000)
 	sent, denied := 0, 0
 	for i := 0; i < n; i++ {
